@@ -75,3 +75,35 @@ package manifest
 //@     | || ($dyntype(m, *oci1Manifest) && $unbox(m, *oci1Manifest).common == c)
 //@     | || ($dyntype(m, *oci1Index) && $unbox(m, *oci1Index).common == c)
 //@     | || ($dyntype(m, *oci1Artifact) && $unbox(m, *oci1Artifact).common == c)
+
+// Byte fidelity: what is pushed (RawBody / MarshalJSON) is the stored raw body itself - the very
+// slice, not a re-serialisation - whenever one is present.
+//@ func (*{oci1Manifest,oci1Index,oci1Artifact,docker2Manifest,docker2ManifestList,docker1Manifest}).MarshalJSON() (b, err)
+//@   prop C02
+//@   ensures stored-raw-body-returned: m.manifSet && len(m.rawBody) > 0 ==> b == m.rawBody && err == nil
+//@   ensures nothing-written: m.rawBody == old(m.rawBody) && m.desc == old(m.desc)
+//@ func (*common).RawBody() (b, err)
+//@   prop C02
+//@   ensures stored-raw-body-returned: b == m.rawBody && (err == nil) == (len(m.rawBody) > 0)
+//@ func (*common).GetDescriptor() (d)
+//@   prop C02
+//@   ensures stored-descriptor-returned: d == m.desc
+
+// New: which expected digest reaches the constructors - the descriptor's, else the reference's,
+// else the Docker-Content-Digest header's - and the raw bytes are handed over untouched.
+//@ callsite fromCommon(c)
+//@   prop C02
+//@   name fromCommon/New
+//@   in ~/types/manifest
+//@   infunc manifest\.New$
+//@   requires raw-bytes-handed-over: c.rawBody == caller.mc.raw
+//@   requires descriptor-digest-first: caller.mc.desc.Digest != "" ==> c.desc.Digest == caller.mc.desc.Digest
+//@   requires then-reference-digest: caller.mc.desc.Digest == "" && caller.mc.r.Digest != "" ==> string(c.desc.Digest) == caller.mc.r.Digest
+//@ callsite fromOrig(c, orig)
+//@   prop C02
+//@   name fromOrig/New
+//@   in ~/types/manifest
+//@   infunc manifest\.New$
+//@   requires raw-bytes-handed-over: c.rawBody == caller.mc.raw
+//@   requires descriptor-digest-first: caller.mc.desc.Digest != "" ==> c.desc.Digest == caller.mc.desc.Digest
+//@   requires then-reference-digest: caller.mc.desc.Digest == "" && caller.mc.r.Digest != "" ==> string(c.desc.Digest) == caller.mc.r.Digest
